@@ -169,6 +169,29 @@ def run_plan(case):
         if not err <= tol:
             fails.append({"key": "representation;%s;%s" % (rname, "r2c" if r2c else "c2c"),
                           "msg": "input given as %s (same shape) is accepted but transformed wrongly: error %.3e (%s)" % (rname, err, full)})
+    # call history on ONE plan: an earlier result must survive later calls, the caller's input must survive the call, and a
+    # call whose input is (a view of) an earlier output of the same plan must still transform that input
+    xa = np.ascontiguousarray(inputs[-1][1])
+    xb = np.ascontiguousarray(inputs[0][1] if len(inputs) > 1 else 0.5 * xa)
+    xa_keep = xa.copy()
+    ya = w.call(xa)
+    ya_keep = np.array(ya, copy=True)
+    yb = w.call(xb)
+    evals += 2
+    if not np.array_equal(xa, xa_keep):
+        fails.append({"key": "input-modified;" + ck, "msg": "call() changed the caller's input array (%s)" % full})
+    if not np.array_equal(ya, ya_keep, equal_nan=True):
+        fails.append({"key": "earlier-output-overwritten;" + ck, "msg": "the array returned by the first call changed during the second call on the same plan (max change %.3e; shares memory with the second result: %s) (%s)" % (
+            np.abs(ya - ya_keep).max(), np.shares_memory(ya, yb), full)})
+    eb = _expected(xb, dims, fwd, r2c, bf)
+    if np.abs(yb - eb).max() > tol_scale * (1 + np.abs(eb).max()):
+        fails.append({"key": "second-call-wrong;" + ck, "msg": "second call on the same plan differs from numpy.fft by %.3e (%s)" % (np.abs(yb - eb).max(), full)})
+    if want_in == want_out and not real_in and not c2r:
+        yc = w.call(ya)  # previous output as input
+        evals += 1
+        ec = _expected(ya_keep, dims, fwd, r2c, bf)
+        if np.abs(yc - ec).max() > tol_scale * max(1, int(np.prod(dims))) * (1 + np.abs(ec).max()):
+            fails.append({"key": "output-as-input;" + ck, "msg": "feeding an earlier output back into the same plan gives a wrong transform: %.3e (%s)" % (np.abs(yc - ec).max(), full)})
     # wrong shape must raise
     for bad in (want_in + (1,), want_in[:-1] + (want_in[-1] + 1,), want_in[::-1] if len(set(want_in)) > 1 else want_in[:-1]):
         if tuple(bad) == tuple(want_in):
